@@ -21,7 +21,7 @@ Pays == [sigs : BOOL, self : BOOL, close : BOOL, fresh : BOOL, chain : BOOL, add
 OkPay == [sigs |-> TRUE, self |-> TRUE, close |-> TRUE, fresh |-> TRUE, chain |-> TRUE, addr |-> TRUE]
 NoPay == "none"
 
-D0 == [path |-> "client", kind |-> "Chunk", keyOk |-> TRUE, pay |-> NoPay, parse |-> "ok",
+D0 == [path |-> "client", kind |-> "Chunk", keyOk |-> TRUE, heldIdx |-> FALSE, pay |-> NoPay, parse |-> "ok",
        pad |-> [c |-> 1, sig |-> "ok", content |-> 1], txs |-> {[id |-> 1, ok |-> TRUE]}, ops |-> {[id |-> 1, ok |-> TRUE]}]
 
 \* set-up delivery that makes the address held (a fully paid upload of the same family)
@@ -38,7 +38,14 @@ ParseCases == {<<held, [Probe(k) EXCEPT !.parse = ps, !.path = pa, !.pay = IF k 
                   held \in BOOL, k \in PaidKinds \cup UnpaidKinds, ps \in {"trunc", "header1", "unknownkind", "oversize", "garbage"},
                   pa \in {"client", "repl", "kadput"}}
          \cup {<<held, [Probe(k) EXCEPT !.path = "kadput", !.pay = IF k \in PaidKinds THEN OkPay ELSE NoPay]>> : held \in BOOL, k \in PaidKinds \cup UnpaidKinds}
+Feasible0(d) == (d.path = "repl" => d.kind \in UnpaidKinds)
+\* a record of ANOTHER owner / other content presented under the key of a record the node already holds
+\* (keyOk = FALSE; the driver realises "victim" by taking the held record's key as the presented key)
+VictimCases == {<<Setup(k), [Probe(k) EXCEPT !.keyOk = FALSE, !.path = pa, !.parse = "victim",
+                                           !.pay = IF k \in PaidKinds THEN OkPay ELSE NoPay]>> :
+                   k \in PaidKinds \cup UnpaidKinds, pa \in {"client", "repl"}}
 SingleScenarios == {IF c[1] THEN <<Setup(c[2].kind), c[2]>> ELSE <<c[2]>> : c \in C03Cases \cup ParseCases}
+              \cup {c \in VictimCases : Feasible0(c[2])}
 
 \* ---- C07 pools (one address per scenario)
 PadPool == {[D0 EXCEPT !.kind = k, !.path = pa, !.pay = IF k = "ScratchpadWithPayment" THEN OkPay ELSE NoPay,
@@ -64,7 +71,8 @@ vars == <<fam, content, hist, bad>>
 
 Init == fam \in Families /\ content = NoneC /\ hist = <<>> /\ bad = {}
 \* the model's own step: the content becomes one of the allowed contents
-Deliver(d) == \E a \in Allowed(d, content) :
+Deliver(d0) == LET d == [d0 EXCEPT !.heldIdx = Held(content)] IN
+              \E a \in Allowed(d, content) :
                  LET x == [d |-> d, res |-> IF a = content THEN "Err" ELSE "Ok", beforeD |-> content, afterD |-> a,
                            beforeP |-> content, afterP |-> a, gained |-> {}, lost |-> {}, derivedOK |-> TRUE,
                            contentOK |-> TRUE, unverified |-> 0] IN
@@ -84,7 +92,8 @@ PadIsHighestValid ==
             (hist[i].path = "client" /\ hist[i].kind = "Scratchpad")
 
 \* ---- case lists for the driver
-ToJsonD(d) == [path |-> d.path, kind |-> d.kind, key |-> IF d.keyOk THEN "derived" ELSE "other", parse |-> d.parse,
+ToJsonD(d) == [path |-> d.path, kind |-> d.kind, key |-> IF d.keyOk THEN "derived" ELSE IF d.parse = "victim" THEN "victim" ELSE "other",
+               parse |-> IF d.parse = "victim" THEN "ok" ELSE d.parse,
                pay |-> d.pay, c |-> d.pad.c, sig |-> d.pad.sig, content |-> d.pad.content,
                txs |-> SetToSeq({[id |-> t.id, sig |-> IF t.ok THEN "ok" ELSE "bad"] : t \in d.txs}),
                ops |-> SetToSeq({[id |-> o.id, sig |-> IF o.ok THEN "ok" ELSE "bad"] : o \in d.ops})]
